@@ -32,6 +32,10 @@ CHECKS = {
    technique="exhaustive enumeration of owned nondeterminism on the real translator: all single (thorough: pairwise) permutations of every map-range loop (overlay rewrite driven by go/types), all parse/print histories to depth 3 (4) over every entry point and reader behaviour against fresh-process references, and preemption-bounded exploration of concurrent parses under the race-detector-visible scheduler",
    text="(a) Every map iteration in asm/ir is replaced at build time by an iteration whose order the harness decides; for 7 inputs (accepted and rejected, incl. names whose natural order needs 20-digit comparison) every non-identity permutation at each executed loop (thorough: at each pair of loops) must give the same accept/reject verdict and byte-identical printed module as the sorted order. (b) Every history of depth <=3 (thorough 4) over 11 operations (ParseString of A/B/two rejected inputs, ParseBytes, Parse with 4 reader behaviours, ParseFile, print of the previous module) is replayed in one long-lived process; each parse must equal the result of a fresh process; A and B reuse the same names, literals and IDs with different meanings so that leaked caches show. (c) 7 thread sets of concurrent parses/prints are explored under the controlled scheduler up to 2 (3) preemptions with TSan on every schedule.",
    note="Inputs are fixed scenario texts (validated against llvm-as); permutations of more than two loops at once and histories longer than the bound are not explored; error *messages* of rejected inputs are not compared (only the verdict)."),
+ "C14": dict(level="model_checking", design="§2 C14",
+   technique="explicit enumeration of all edit histories up to a depth over the public API (stateless: every history replayed from scratch on a fresh module), crossed with every placement of one (two) observer calls; differential oracle against the observer-free history",
+   text="All histories of <=4 (thorough <=5) edit operations from a 33-operation alphabet (append/insert/remove instructions, set/replace terminators, name/rename/unname values, blocks and globals, add globals/functions/blocks, name a struct type already in use, append/prepend metadata) are enumerated by breadth-first expansion of enabled operations; for each history every placement of one observer out of 9 kinds (String, WriteTo, LLString of functions/blocks/instructions, Type/Ident/String, Operands, Succs, explicit ID assignment) at every position is executed, and every placement of two observers for histories of length <=3 (4): about 3.2e6 runs in quick. The final String() must equal that of the observer-free history, must not panic on a complete module, and must be stable when repeated; observers on incomplete modules may panic (recovered) but must leave no trace.",
+   note="Known findings (print-then-renumbering-edit panics / metadata renumbering) are listed in known_findings.json by panic site + first renumbering edit kind; functions/blocks are bounded (2 functions, 3 blocks); operand replacement edits belong to C15."),
 }
 
 NOT_APPLICABLE = {}
